@@ -136,7 +136,11 @@ fn mips_words(full: bool) -> Vec<u32> {
     v
 }
 fn ppc_words(full: bool) -> Vec<u32> {
-    let regs: &[(u32, u32)] = if full { &MIPS_REGS_F } else { &MIPS_REGS_Q[..3] };
+    // rD also carries the CR field of the compares: 28 = cr7 (L = 0), 4 = cr1
+    const PPC_REGS_Q: [(u32, u32); 5] = [(0, 0), (1, 2), (31, 31), (28, 3), (4, 0)];
+    const PPC_REGS_F: [(u32, u32); 12] =
+        [(0, 0), (1, 2), (31, 31), (28, 3), (4, 0), (3, 3), (31, 0), (0, 31), (12, 9), (1, 31), (8, 1), (24, 28)];
+    let regs: &[(u32, u32)] = if full { &PPC_REGS_F } else { &PPC_REGS_Q };
     let rbs: &[u32] = if full { &[0, 3, 31] } else { &[3] };
     let mut v = vec![];
     for op in 0..64u32 {
@@ -261,6 +265,8 @@ fn corpus() -> Vec<(usize, u64, Vec<u8>, &'static str)> {
         (5, 0x1000, le(0xb4000020), "corpus:a64-cbz-to-fallthrough"),
         (5, 0x1000, le(0x36000020), "corpus:a64-tbz-to-fallthrough"),
         (4, 0x1000, be(0x2c030005), "corpus:ppc-cmpwi"),
+        (4, 0x1000, be(0x2f830005), "corpus:ppc-cmpwi-cr7"),
+        (4, 0x1000, be(0x2b830005), "corpus:ppc-cmplwi-cr7"),
         (4, 0x1000, be(0x28030005), "corpus:ppc-cmplwi"),
         (4, 0x1000, be(0x7c632051), "corpus:ppc-subf."),
         (4, 0x1000, be(0x41820008), "corpus:ppc-beq"),
@@ -442,16 +448,17 @@ fn rename_consts(raw: &str) -> String {
 /// renamed by first occurrence (equalities between them are preserved).  The checker is a conjunction of
 /// per-graph checks and a successor-list check, and looks at widths, graph structure, syntactic equality of
 /// sub-terms and 1-bit constants only -- so two results with the same set of shapes get the same verdict.
-fn shapes(r: &BlockTranslationResult) -> Vec<u64> {
-    let mut hs: Vec<u64> = vec![];
-    for (_, g) in r.instructions() {
-        let mut g2 = g.clone();
-        g2.set_address(None);
-        let h = fnv(&rename_consts(&coq_cfg(&g2, None, &mut Interner::new())));
-        if !hs.contains(&h) {
-            hs.push(h);
-        }
-    }
+fn graph_hashes(r: &BlockTranslationResult) -> Vec<u64> {
+    r.instructions()
+        .iter()
+        .map(|(_, g)| {
+            let mut g2 = g.clone();
+            g2.set_address(None);
+            fnv(&rename_consts(&coq_cfg(&g2, None, &mut Interner::new())))
+        })
+        .collect()
+}
+fn succ_hash(r: &BlockTranslationResult) -> u64 {
     let mut it = Interner::new();
     let mut amap: BTreeMap<u64, usize> = BTreeMap::new();
     let succs: Vec<String> = r
@@ -463,8 +470,118 @@ fn shapes(r: &BlockTranslationResult) -> Vec<u64> {
             format!("({}, {})", id, coq_opt(c.as_ref().map(|e| coq_expr(e, &mut it))))
         })
         .collect();
-    hs.push(fnv(&format!("succs {}", rename_consts(&coq_list(succs)))));
+    fnv(&format!("succs {}", rename_consts(&coq_list(succs))))
+}
+fn shapes(r: &BlockTranslationResult) -> Vec<u64> {
+    let mut hs: Vec<u64> = vec![];
+    for h in graph_hashes(r) {
+        if !hs.contains(&h) {
+            hs.push(h);
+        }
+    }
+    hs.push(succ_hash(r));
     hs
+}
+
+// ---------------------------------------------------------------- compact Gallina printer (Lift/C05Check.v: sc es ek ins blk)
+// instruction addresses, next-index counters and (absent) phi nodes are not printed: no clause of the property
+// and no validator looks at them
+use falcon::il;
+fn c_scalar(s: &il::Scalar, it: &mut Interner) -> String {
+    match s.ssa() {
+        None => format!("(sc {} {})", it.id(s.name()), s.bits()),
+        Some(_) => coq_scalar(s, it),
+    }
+}
+fn c_expr(e: &il::Expression, it: &mut Interner) -> String {
+    use il::Expression::*;
+    let b = |o: &str, l: &il::Expression, r: &il::Expression, it: &mut Interner| format!("(EBin {} {} {})", o, c_expr(l, it), c_expr(r, it));
+    match e {
+        Scalar(s) => match s.ssa() {
+            None => format!("(es {} {})", it.id(s.name()), s.bits()),
+            Some(_) => format!("(EScalar {})", coq_scalar(s, it)),
+        },
+        Constant(c) => format!("(ek {} {})", c.bits(), z_big(c.value())),
+        Add(l, r) => b("Add", l, r, it),
+        Sub(l, r) => b("Sub", l, r, it),
+        Mul(l, r) => b("Mul", l, r, it),
+        Divu(l, r) => b("Divu", l, r, it),
+        Modu(l, r) => b("Modu", l, r, it),
+        Divs(l, r) => b("Divs", l, r, it),
+        Mods(l, r) => b("Mods", l, r, it),
+        And(l, r) => b("And", l, r, it),
+        Or(l, r) => b("Or", l, r, it),
+        Xor(l, r) => b("Xor", l, r, it),
+        Shl(l, r) => b("Shl", l, r, it),
+        Shr(l, r) => b("Shr", l, r, it),
+        AShr(l, r) => b("AShr", l, r, it),
+        Cmpeq(l, r) => b("Cmpeq", l, r, it),
+        Cmpneq(l, r) => b("Cmpneq", l, r, it),
+        Cmplts(l, r) => b("Cmplts", l, r, it),
+        Cmpltu(l, r) => b("Cmpltu", l, r, it),
+        Zext(n, x) => format!("(EExt Zext {} {})", n, c_expr(x, it)),
+        Sext(n, x) => format!("(EExt Sext {} {})", n, c_expr(x, it)),
+        Trun(n, x) => format!("(EExt Trun {} {})", n, c_expr(x, it)),
+        Ite(c, t, f) => format!("(EIte {} {} {})", c_expr(c, it), c_expr(t, it), c_expr(f, it)),
+    }
+}
+fn c_op(o: &il::Operation, it: &mut Interner) -> String {
+    use il::Operation::*;
+    match o {
+        Assign { dst, src } => format!("(OAssign {} {})", c_scalar(dst, it), c_expr(src, it)),
+        Store { index, src } => format!("(OStore {} {})", c_expr(index, it), c_expr(src, it)),
+        Load { dst, index } => format!("(OLoad {} {})", c_scalar(dst, it), c_expr(index, it)),
+        Branch { target } => format!("(OBranch {})", c_expr(target, it)),
+        Intrinsic { intrinsic } => {
+            let m = it.id(&format!("intrinsic:{}", intrinsic.mnemonic()));
+            let l = |v: &[il::Expression], it: &mut Interner| coq_list(v.iter().map(|e| c_expr(e, it)).collect::<Vec<_>>());
+            let args = l(intrinsic.arguments(), it);
+            let wr = coq_opt(intrinsic.written_expressions().map(|v| l(v, it)));
+            let rd = coq_opt(intrinsic.read_expressions().map(|v| l(v, it)));
+            format!("(OIntrinsic (mkintr {}%N {} {} {}))", m, args, wr, rd)
+        }
+        Nop { placeholder } => format!("(ONop {})", coq_opt(placeholder.as_ref().map(|p| c_op(p, it)))),
+    }
+}
+fn c_cfg(g: &il::ControlFlowGraph, it: &mut Interner) -> String {
+    let idx: Vec<usize> = g.blocks().iter().map(|b| b.index()).collect();
+    let blocks: Vec<String> = g
+        .blocks()
+        .iter()
+        .map(|b| {
+            if b.phi_nodes().is_empty() {
+                let is: Vec<String> = b.instructions().iter().map(|i| format!("(ins {} {})", i.index(), c_op(i.operation(), it))).collect();
+                format!("(blk {} {})", b.index(), coq_list(is))
+            } else {
+                coq_block(b, None, &idx, it)
+            }
+        })
+        .collect();
+    let edges: Vec<String> =
+        g.edges().iter().map(|e| format!("(mkedge {} {} {})", e.head(), e.tail(), coq_opt(e.condition().map(|c| c_expr(c, it))))).collect();
+    let nx = idx.iter().map(|i| i + 1).max().unwrap_or(0);
+    format!("(mkcfg {} {} {} {} {})", coq_list(blocks), coq_list(edges), nx, coq_optz(g.entry().map(|v| v as u64)), coq_optz(g.exit().map(|v| v as u64)))
+}
+/// the part of a result that shows the given (not yet covered) shapes: those instruction graphs, and the
+/// successor list iff its shape is among them (`all` = everything)
+fn project(r: &BlockTranslationResult, fresh: &[u64], all: bool) -> (String, usize, usize) {
+    let mut it = Interner::new();
+    let gh = graph_hashes(r);
+    let mut shown: Vec<u64> = vec![];
+    let mut instrs: Vec<String> = vec![];
+    for ((a, g), h) in r.instructions().iter().zip(gh.iter()) {
+        if all || (fresh.contains(h) && !shown.contains(h)) {
+            shown.push(*h);
+            instrs.push(format!("({}, {})", a, c_cfg(g, &mut it)));
+        }
+    }
+    let succs: Vec<String> = if all || fresh.contains(&succ_hash(r)) {
+        r.successors().iter().map(|(a, c)| format!("({}, {})", a, coq_opt(c.as_ref().map(|e| c_expr(e, &mut it))))).collect()
+    } else {
+        vec![]
+    };
+    let n = instrs.len();
+    (format!("(LOk (mkbr {} {} {} {}))", coq_list(instrs), r.address(), r.length(), coq_list(succs)), n, r.instructions().len())
 }
 fn fnv(s: &str) -> u64 {
     let mut h: u64 = 0xcbf29ce484222325;
@@ -495,14 +612,14 @@ fn run_input(i: &Input) -> Outcome {
             let ta = dump(&ra, &mut Interner::new());
             let tb = dump(&rb, &mut Interner::new());
             let size = ra.instructions().iter().map(|(_, g)| g.blocks().iter().map(|b| b.instructions().len()).sum::<usize>()).sum();
-            Outcome { kind: "ok", relift: ta == tb, hashes: shapes(&ra), term: format!("(LOk {})", ta), size }
+            Outcome { kind: "ok", relift: ta == tb, hashes: shapes(&ra), term: String::new(), size }
         }
         (Ok(Err(ea)), Ok(Err(eb))) => {
             let same = format!("{:?}", ea) == format!("{:?}", eb);
             Outcome { kind: "err", relift: same, hashes: vec![1], term: "LErr".into(), size: 0 }
         }
-        (Err(_), Err(_)) => Outcome { kind: "panic", relift: true, hashes: vec![fnv(&panic_site())], term: "LPanic".into(), size: 0 },
-        (Err(_), _) | (_, Err(_)) => Outcome { kind: "panic", relift: false, hashes: vec![fnv(&panic_site())], term: "LPanic".into(), size: 0 },
+        (Err(_), Err(_)) => Outcome { kind: "panic", relift: true, hashes: vec![fnv(&panic_site())], term: format!("LPanic (* {} *)", panic_site()), size: 0 },
+        (Err(_), _) | (_, Err(_)) => Outcome { kind: "panic", relift: false, hashes: vec![fnv(&panic_site())], term: format!("LPanic (* {} *)", panic_site()), size: 0 },
         _ => Outcome { kind: "mixed", relift: false, hashes: vec![4], term: "LErr".into(), size: 0 },
     }
 }
@@ -536,7 +653,8 @@ fn child_main(args: &Args) {
             new |= seen.insert(k);
         }
         let hs = o.hashes.iter().map(|h| format!("{:x}", h)).collect::<Vec<_>>().join(",");
-        writeln!(out, "R {} {} {} {} {} {}", idx, o.kind, o.relift as u8, hs, o.size, if new { &o.term } else { "-" }).unwrap();
+        let _ = new;
+        writeln!(out, "R {} {} {} {} {} {}", idx, o.kind, o.relift as u8, hs, o.size, if o.term.is_empty() { "-" } else { &o.term }).unwrap();
     }
     out.flush().unwrap();
 }
@@ -682,11 +800,23 @@ fn main() {
         });
         let i = rep.expect("no input index of a previous full run in the output directory: run the full check first");
         // in-process is enough for a replay of a panic / wf failure; an abort shows as a dead harness
+        std::panic::set_hook(Box::new(|info| {
+            let at = info.location().map(|l| format!("{}:{}", l.file(), l.line())).unwrap_or_default();
+            PANIC_AT.with(|p| *p.borrow_mut() = at);
+        }));
         let o = run_input(&i);
         let bits = TR[i.tr].1;
+        let term = if o.kind == "ok" {
+            match catch_unwind(AssertUnwindSafe(|| lift(i.tr, &i.bytes, i.addr, i.intr))) {
+                Ok(Ok(res)) => project(&res, &[], true).0,
+                _ => "LPanic".to_string(),
+            }
+        } else {
+            o.term.clone()
+        };
         let case = Case {
-            coq: format!("(KLift {} {} {})", bits, coq_bool(o.relift), o.term),
-            descr: format!("{} -> {}", i.descr(), o.kind),
+            coq: format!("(KLift {} {} {})", bits, coq_bool(o.relift), term),
+            descr: format!("{} -> {} {}", i.descr(), o.kind, if o.kind == "panic" { panic_site() } else { String::new() }),
             tags: vec![TR[i.tr].0.to_string(), o.kind.to_string()],
             nontrivial: o.size > 0,
             key: format!("{:?}", o.hashes),
@@ -734,6 +864,7 @@ fn main() {
         kind: String,
         relift: bool,
         new_shapes: usize,
+        shown: String,
         size: usize,
         hashes: Vec<u64>,
         kf: Vec<String>,
@@ -748,19 +879,28 @@ fn main() {
         for h in &r.hashes {
             *shape_inputs.entry((i.tr, *h)).or_insert(0) += 1;
         }
-        let mut fresh = 0;
-        for k in cover_keys(&i, &r.kind, r.relift, &r.hashes) {
+        let mut fresh: Vec<u64> = vec![];
+        for (k, h) in cover_keys(&i, &r.kind, r.relift, &r.hashes).into_iter().zip(r.hashes.iter()) {
             if seen.insert(k) {
-                fresh += 1;
+                fresh.push(*h);
             }
         }
-        if fresh > 0 {
-            let term = match &r.term {
-                Some(t) => t.clone(),
-                None => run_input(&i).term, // cannot happen (the child's seen-set is a subset of ours); be safe
+        if !fresh.is_empty() {
+            // the Gallina term: for a result, the part of the block that shows the new shapes (re-lifted here: the
+            // child survived this input, and a panic is caught)
+            let (term, shown) = if r.kind == "ok" {
+                match catch_unwind(AssertUnwindSafe(|| lift(i.tr, &i.bytes, i.addr, i.intr))) {
+                    Ok(Ok(res)) => {
+                        let (t, n, m) = project(&res, &fresh, !r.relift);
+                        (t, format!("{} of its {} instruction graphs shown", n, m))
+                    }
+                    _ => ("LPanic (* third lift of the input disagrees with the first two *)".to_string(), String::new()),
+                }
+            } else {
+                (r.term.clone().unwrap_or_else(|| "LErr".into()), String::new())
             };
             let kf = kf_tags(&i);
-            groups.push(Group { rep: i, term, kind: r.kind.clone(), relift: r.relift, new_shapes: fresh, size: r.size, hashes: r.hashes.clone(), kf });
+            groups.push(Group { rep: i, term, kind: r.kind.clone(), relift: r.relift, new_shapes: fresh.len(), size: r.size, hashes: r.hashes.clone(), kf, shown });
         }
     }
     let cases: Vec<Case> = groups
@@ -777,7 +917,12 @@ fn main() {
             let covered: u64 = g.hashes.iter().map(|h| shape_inputs[&(g.rep.tr, *h)]).min().unwrap_or(1);
             Case {
                 coq: format!("(KLift {} {} {})", bits, coq_bool(g.relift), g.term),
-                descr: format!("{} -> {} ({} IL instructions; {} shapes first seen here; rarest of its shapes occurs in {} inputs)", g.rep.descr(), g.kind, g.size, g.new_shapes, covered),
+                descr: format!(
+                    "{} -> {}{} ({} IL instructions; {} shapes first seen here{}; rarest of its shapes occurs in {} inputs)",
+                    g.rep.descr(), g.kind,
+                    g.term.find("(*").map(|p| format!(" at {}", g.term[p + 2..].trim_end_matches("*)").trim())).unwrap_or_default(),
+                    g.size, g.new_shapes, if g.shown.is_empty() { String::new() } else { format!(", {}", g.shown) }, covered
+                ),
                 tags,
                 nontrivial: g.size > 0,
                 key: format!("{}:{}", g.rep.tr, g.hashes.iter().map(|h| format!("{:x}", h)).collect::<Vec<_>>().join(",")),
